@@ -26,6 +26,7 @@ from common import Check, COQ
 
 import nfc.clf
 from sim import c13_world as W
+from sim import chipsets as CS
 
 logging.disable(logging.CRITICAL)
 
@@ -91,7 +92,7 @@ def jsonable(f):
 
 def unjson(f):
     f = list(f)
-    if f[0] == 'garbled':
+    if f[0] in ('garbled', 'ackgarbled'):
         f[1] = bytes.fromhex(f[1])
     return tuple(f)
 
@@ -245,6 +246,16 @@ class Runner(object):
         ck.cov['skeleton_membership_checks'] = self.n_membership
 
 
+def runt_faults(d, cmd):
+    """scenario independent runt / inconsistent frames, as the response and in place of the ACK"""
+    proto = 'acr122' if d == 'acr122' else ('rcs380' if d == 'rcs380' else 'pn53x')
+    frames = CS.runt_corpus(proto, cmd)
+    fs = [('garbled', f) for f in frames]
+    if proto != 'acr122':
+        fs += [('ackgarbled', f) for f in frames]
+    return fs
+
+
 def fault_set(ck, d, cmd, has_status, frame_len, thorough):
     rng = ck.rng
     fs = []
@@ -289,6 +300,7 @@ def fault_set(ck, d, cmd, has_status, frame_len, thorough):
            ('garbled', bytes.fromhex('0000ff02fed5')), ('garbled', bytes.fromhex('0000ffffff0200fed7059e00')),
            ('garbled', bytes.fromhex('0000ffffff')), ('garbled', bytes.fromhex('0000ffffff01')),
            ('garbled', bytes.fromhex('0000ffffff0100ffd72900')), ('garbled', b'\x80' + bytes(9))]
+    fs += runt_faults(d, cmd)
     return fs
 
 
@@ -315,6 +327,7 @@ def phys_fault_set(ck, d, cmd, has_status, frame_len, thorough):
     fs += [('garbled', bytes.fromhex(h)) for h in ('00', '0000', '0000ff', '0000ffff', '0000ffffff', '0000ffffff01', '0000ffffff0102',
                                                    '0000ffffff010203', '0000ff05', '0000ff05fb', '0000ff00ff', '0000ff00ff00',
                                                    '0000ffffff0010f00000000000', '80', '8000000000')]
+    fs += runt_faults(d, cmd)
     return fs
 
 
@@ -326,6 +339,12 @@ CORPUS = [
     ('rcs380', 'tt2-read', 0, ('status', 1)), ('rcs380', 'tt3-check', 1, ('status', 4)),
     ('rcs380', 'tt2-read', 3, ('short', 6)), ('rcs380', 'tt2-read', 3, ('short', 9)), ('rcs380', 'tt2-read', 3, ('errframe',)),
     ('rcs380', 'dep-target', 0, ('short', 6)),
+    # six-byte runt: the start of an extended frame with LEN bytes cut (seeded regression C13-4)
+    ('pn532', 'tt2-read', 3, ('garbled', bytes.fromhex('0000ffffff00'))), ('pn531', 'tt2-read', 0, ('garbled', bytes.fromhex('0000ffffff00'))),
+    ('pn533', 'tt3-check', 2, ('garbled', bytes.fromhex('0000ffffff00'))), ('rcs956', 'dep-target', 1, ('garbled', bytes.fromhex('0000ffffff00'))),
+    ('arygon-a', 'tt2-read', 3, ('ackgarbled', bytes.fromhex('0000ffffff00'))), ('pn532', 'listen-tt3', 1, ('garbled', bytes.fromhex('0000ffffff00'))),
+    ('pn532', 'tt2-read', 3, ('garbled', bytes.fromhex('0000ffffff0000'))), ('pn532', 'tt2-read', 3, ('garbled', bytes.fromhex('0000ff0000'))),
+    ('rcs380', 'tt2-read', 3, ('garbled', bytes.fromhex('0000ffffff00'))), ('rcs380', 'tt2-read', 3, ('ackgarbled', bytes.fromhex('0000ffffff0500'))),
     ('udp', 'tt2-read', 1, ('garbled', b'106A zz')), ('udp', 'dep-target', 1, ('garbled', b'\xff\xfe 00')),
     ('udp', 'tt4a-apdu', 1, ('garbled', b'106A 0')),
 ]
